@@ -67,7 +67,7 @@ class C20Emulsion(Harness):
     prop = "C20"
     bounds = ("Emulsion under every sequence of 2 (thorough 3) operations out of 12 (append, extend, copy, slice, +, "
               "remove_small, remove_overlapping, get_linked_data + write, in-place merge of members, re-construction, "
-              "append(copy=False), mutation through __getitem__) starting from 2 DiffuseDroplets (1D; thorough also 2D), "
+              "append(copy=False), mutation through __getitem__) starting from 2 DiffuseDroplets (1D; thorough: 3 operations in 1D, 2 in 2D), "
               "all parameters symbolic; after every step: content = list model, caller-held droplets mutated (aliasing "
               "probe), summary queries = definitions, order independence")
     stubs = ["numpy structured records = SYMX record model (copy / view semantics validated against numpy)"]
@@ -75,9 +75,8 @@ class C20Emulsion(Harness):
     exact_validation = False
 
     def configs(self, tier):
-        L = 3 if tier == "thorough" else 2
         out = []
-        for dim in ((1, 2) if tier == "thorough" else (1,)):
+        for dim, L in (((1, 3), (2, 2)) if tier == "thorough" else ((1, 2),)):
             for first in range(len(EM_OPS)):
                 for second in range(len(EM_OPS)):
                     out.append(dict(dim=dim, L=L, first=first, second=second))
